@@ -331,9 +331,102 @@ var checkVarsShared = register("c19.vars", func(c VarsCase) *Violation {
 	return nil
 })
 
+// StormCase: many goroutines, each in its own named context zone, repeat a few
+// datetime casts whose result depends on the zone; every call must return what
+// it returns alone. (State shared between calls in different zones - a cache of
+// zone data, say - shows only under sustained concurrent use.)
+type StormCase struct {
+	Zones  []string `json:"zones"`
+	Paths  []string `json:"paths"`
+	Doc    string   `json:"doc"`
+	Rounds int      `json:"rounds"`
+	PerZ   int      `json:"goroutines_per_zone"`
+}
+
+var checkStorm = register("c19.zone_storm", func(c StormCase) *Violation {
+	var paths []*path.Path
+	for _, t := range c.Paths {
+		p, err := path.Parse(t)
+		if err != nil {
+			return violf("harness: %q does not parse: %v", t, err)
+		}
+		paths = append(paths, p)
+	}
+	doc := MustDecode(c.Doc, false)
+	call := func(p *path.Path, zone string) string {
+		o := Opts{TZ: true, Zone: zone}
+		out := RunQuery(o.Ctx(), p, doc, o.Options(nil)...)
+		return out.Class + out.Panic + fmt.Sprint(RenderSeq(out.Items, false))
+	}
+	alone := map[string][]string{}
+	for _, z := range c.Zones {
+		for _, p := range paths {
+			alone[z] = append(alone[z], call(p, z))
+		}
+	}
+	var wg sync.WaitGroup
+	var mu sync.Mutex
+	var first *Violation
+	stop := make(chan struct{})
+	var once sync.Once
+	for _, z := range c.Zones {
+		for k := 0; k < c.PerZ; k++ {
+			wg.Add(1)
+			go func(z string) {
+				defer wg.Done()
+				for n := 0; n < c.Rounds; n++ {
+					select {
+					case <-stop:
+						return
+					default:
+					}
+					for i, p := range paths {
+						if got := call(p, z); got != alone[z][i] {
+							mu.Lock()
+							if first == nil {
+								first = violf("Query(%q) in context zone %q returned %s when %d goroutines worked in %d different zones, but %s when run alone (round %d)", c.Paths[i], z, got, len(c.Zones)*c.PerZ, len(c.Zones), alone[z][i], n)
+							}
+							mu.Unlock()
+							once.Do(func() { close(stop) })
+							return
+						}
+					}
+				}
+			}(z)
+		}
+	}
+	wg.Wait()
+	return first
+})
+
 func TestC19(t *testing.T) {
 	ev := newEv(t, "C19")
 	ev.replayTier(t)
+	t.Run("zone_storm", func(t *testing.T) {
+		b := ev.enum(t)
+		rounds := 1500
+		if thorough() {
+			rounds = 20000
+		}
+		all := []string{"UTC", "America/New_York", "Australia/Sydney", "Asia/Kolkata", "Asia/Tokyo", "America/Los_Angeles", "America/Sao_Paulo", "Europe/Paris", "Pacific/Auckland", "Asia/Kathmandu"}
+		// each shard takes a different window of zones and set of paths
+		sh := shard()
+		zones := append([]string{}, all[sh%len(all):]...)
+		zones = append(zones, all[:sh%len(all)]...)
+		zones = zones[:6+sh%3]
+		c := StormCase{Zones: zones, Rounds: rounds, PerZ: 2, Doc: `{"s":"2023-08-15 12:34:56","d":"2023-01-15","ts":["2023-08-15T12:34:56+05:30","2023-02-01T01:00:00-08:00"],"t":"12:34:56"}`,
+			Paths: [][]string{
+				{`$.s.timestamp_tz().string()`, `$.s.timestamp_tz() < "2023-08-15T12:00:00+00:00".timestamp_tz()`, `$.d.date().timestamp_tz().string()`},
+				{`$.ts[*].timestamp().string()`, `$.d.timestamp_tz().string()`, `$.ts[*].date().string()`, `$.s.datetime() == $.ts[0].datetime()`},
+				{`$.s.timestamp_tz().time_tz().string()`, `$.ts[*].timestamp_tz().timestamp().string()`, `$.d.datetime() < $.ts[1].datetime()`},
+				{`$.s.timestamp_tz().string()`, `$.ts[*].time().string()`, `$.s.timestamp().timestamp_tz().date().string()`},
+			}[sh%4]}
+		key, _ := json.Marshal(c)
+		ev.Eval("storm"+string(key), true)
+		ev.Sample("zone_storm", c)
+		ev.Label("zone_storm")
+		b.Check("c19.zone_storm", c, checkStorm(c))
+	})
 	ev.rapidProp(t, "alias", func(rt *rapid.T) {
 		gcfg := GenCfg{MaxNodes: 8, HardErrPct: 5}
 		pick := func(l string) string {
